@@ -53,6 +53,19 @@ def call_np(interp, name, args, kwargs, lineno):
             return A._clone_vec(args[0])
         a = snap(args[0])
         return Box(Arr(a.shape, a.fn, a.kind, tag=a.tag, origin=lineno, segs=a.segs, affine=a.affine, label=a.label if A.is_flatvec(a) else None))
+    if name == 'atleast_1d':
+        def one(x):
+            if isinstance(x, (Rat, bool)):
+                return Box(A.list_to_arr([R(x)]))
+            if is_arraylike(x):
+                a_ = snap(x)
+                if a_.ndim == 0:
+                    return Box(A.list_to_arr([a_.at(())]))
+                return x                    # already at least 1-d: the very same array
+            raise AnalysisError(f"np.atleast_1d of {type(x).__name__}")
+        if len(args) == 1:
+            return one(args[0])
+        return [one(x) for x in args]
     if name == 'hstack':
         pieces = args[0]
         if not isinstance(pieces, (list, tuple)):
